@@ -239,7 +239,13 @@ fn explore_case(idx: usize, case: &Case, deadline: Option<Instant>, want_sample:
         }
         Control::Continue
     };
-    let r = vexec::explore(case.bound, deadline, reruns, split, abort_after, &mut run, &mut visit);
+    // a single case may not eat the whole budget: beyond the cap it is reported as not completed
+    let case_cap: u64 = std::env::var("VERIF_CASE_CAP").ok().and_then(|s| s.parse().ok()).unwrap_or(40_000_000);
+    let cap = Some(match split {
+        Some(sp) => case_cap / sp.parts as u64,
+        None => case_cap,
+    });
+    let r = vexec::explore(case.bound, deadline, reruns, split, abort_after, cap, &mut run, &mut visit);
     let mut out = json!({"idx": idx, "desc": case.desc, "wall_s": t0.elapsed().as_secs_f64()});
     match r {
         Ok(stats) if stats.aborted_too_big => {
@@ -247,7 +253,7 @@ fn explore_case(idx: usize, case: &Case, deadline: Option<Instant>, want_sample:
             out["schedules"] = json!(stats.schedules);
         }
         Ok(stats) => {
-            let complete = !stats.wall_hit;
+            let complete = !stats.wall_hit && !stats.case_capped;
             for v in case.scene.finish(complete) {
                 found.entry(v.key.clone()).or_insert_with(|| {
                     (
@@ -281,6 +287,7 @@ fn explore_case(idx: usize, case: &Case, deadline: Option<Instant>, want_sample:
             out["max_depth"] = json!(stats.max_depth);
             out["pruned"] = json!(stats.pruned);
             out["wall_hit"] = json!(stats.wall_hit);
+            out["case_capped"] = json!(stats.case_capped);
             out["reruns"] = json!(stats.determinism_reruns);
             out["structure_runs"] = json!(stats.structure_runs);
             if let Some(sp) = split {
@@ -427,8 +434,9 @@ pub fn check_main(prop: &Property, tier: Tier) -> i32 {
     let descs: Vec<String> = cases.iter().map(|c| c.desc.clone()).collect();
     let bounds: Vec<Option<u32>> = cases.iter().map(|c| c.bound).collect();
     drop(cases);
+    let deal_seed = if seed == 0 && tier == Tier::Thorough { 0x5eed } else { seed };
     let queue: Arc<Mutex<std::collections::VecDeque<String>>> =
-        Arc::new(Mutex::new(shuffle_indices(ncases, seed).into_iter().map(|i| i.to_string()).collect()));
+        Arc::new(Mutex::new(shuffle_indices(ncases, deal_seed).into_iter().map(|i| i.to_string()).collect()));
     let in_flight = Arc::new(AtomicUsize::new(0));
     const PARTS: u32 = 32;
     const SPLIT_DEPTH: usize = 6;
@@ -536,7 +544,7 @@ pub fn check_main(prop: &Property, tier: Tier) -> i32 {
                 }
                 acc["max_depth"] = json!(acc["max_depth"].as_u64().unwrap_or(0).max(r["max_depth"].as_u64().unwrap_or(0)));
                 acc["wall_s"] = json!(acc["wall_s"].as_f64().unwrap_or(0.0) + r["wall_s"].as_f64().unwrap_or(0.0));
-                for k in ["pruned", "wall_hit"] {
+                for k in ["pruned", "wall_hit", "case_capped"] {
                     acc[k] = json!(acc[k].as_bool().unwrap_or(false) || r[k].as_bool().unwrap_or(false));
                 }
                 if r.get("skipped").is_some() {
@@ -589,6 +597,7 @@ pub fn check_main(prop: &Property, tier: Tier) -> i32 {
     let mut complete_cases = 0u64;
     let mut skipped = 0u64;
     let mut wall_hit_cases = 0u64;
+    let mut capped_cases = 0u64;
     let mut pruned_cases = 0u64;
     let mut largest: (u64, String) = (0, String::new());
     let mut sizes: Vec<(u64, String)> = vec![];
@@ -620,9 +629,12 @@ pub fn check_main(prop: &Property, tier: Tier) -> i32 {
         end_q += g(r, "end_quiescent");
         end_h += g(r, "end_horizon");
         max_depth = max_depth.max(g(r, "max_depth"));
+        if r["case_capped"].as_bool().unwrap_or(false) {
+            capped_cases += 1;
+        }
         if r["wall_hit"].as_bool().unwrap_or(false) {
             wall_hit_cases += 1;
-        } else if r.get("error").is_none() {
+        } else if r.get("error").is_none() && !r["case_capped"].as_bool().unwrap_or(false) {
             complete_cases += 1;
         }
         if r["pruned"].as_bool().unwrap_or(false) {
@@ -701,13 +713,16 @@ pub fn check_main(prop: &Property, tier: Tier) -> i32 {
     }
 
     let vacuous: Vec<&str> = prop.clauses.iter().copied().filter(|c| obligations.get(*c).copied().unwrap_or(0) == 0).collect();
-    let exhaustive = machinery.is_empty() && skipped == 0 && wall_hit_cases == 0 && pruned_cases == 0 && results.len() == ncases;
+    let exhaustive = machinery.is_empty() && skipped == 0 && wall_hit_cases == 0 && capped_cases == 0 && pruned_cases == 0 && results.len() == ncases;
     let mut caps: Vec<&str> = vec![];
     if skipped > 0 || wall_hit_cases > 0 {
         caps.push("wall");
     }
     if pruned_cases > 0 {
         caps.push("deviation_bound");
+    }
+    if capped_cases > 0 {
+        caps.push("case_cap");
     }
     let max_bound = bounds.iter().flatten().max().copied();
     if samples.is_empty() {
@@ -737,6 +752,7 @@ pub fn check_main(prop: &Property, tier: Tier) -> i32 {
             "cases_completed": complete_cases,
             "cases_skipped_wall": skipped,
             "cases_cut_by_wall": wall_hit_cases,
+            "cases_cut_by_per_case_cap": capped_cases,
             "cases_with_deviation_bound_pruning": pruned_cases,
             "deviation_bound": max_bound,
             "schedules": schedules,
